@@ -376,7 +376,13 @@ def witnesses():
     w3 = prog([CH("x", [(F(1, 2), 1), (F(1, 2), 3)]), A("y", "2*x")], nl_body)
     w4 = prog([CH("z", [(F(1, 3), 0), (F(2, 3), 2)]), CH("x", [(F(1, 2), 1), (F(1, 2), -1)]), A("y", "x + z")],
               [CH("z", [(F(1, 2), "z + 1"), (F(1, 2), "z - 1")]), A("x", "2*x + y**2 + z"), A("y", "2*y - y**2 + 2*z")])
-    return [{"name": "witness:random-correlated-initial-values", "ast": w3, "cand": ["x", "y"], "deg": 2, "family": "witness"},
+    # eigenvalue k = 0 (E(Q') contains no defective monomial): f(n) = inhomogeneous part only from n = 1 on, f(0) = Q(initial state)
+    w5 = prog([A("z", 0), A("x", 3), A("y", F(1, 2))], [A("z", "z + 1"), SIM(["x", "y"], ["y**2 + z", "y**2 + 2"])])
+    w6 = prog([SIM(["x", "y"], [1, 5]), A("d", 0)],
+              [DRAW("d", ("bern", P.const(F(1, 2)))), SIM(["x", "y"], ["x*y + d + 3", "x*y + 3*d"])])
+    return [{"name": "witness:eigenvalue-zero-deterministic", "ast": w5, "cand": None, "deg": 1, "family": "witness"},
+            {"name": "witness:eigenvalue-zero-probabilistic", "ast": w6, "cand": None, "deg": 1, "family": "witness"},
+            {"name": "witness:random-correlated-initial-values", "ast": w3, "cand": ["x", "y"], "deg": 2, "family": "witness"},
             {"name": "witness:random-initial-values-squares", "ast": w4, "cand": None, "deg": 2, "family": "witness"},
             {"name": "witness:summing-special-cases", "ast": w1, "cand": None, "deg": 1, "family": "witness"},
             {"name": "witness:summing-special-cases-deterministic", "ast": w1d, "cand": None, "deg": 1, "family": "witness"},
